@@ -131,9 +131,9 @@ def token_rule_names():
     cls = m['lexer'].Lexer
     out = []
     for k, v in cls.__dict__.items():
-        if k.startswith('t_') and k not in ('t_ignore', 't_error') and \
-                callable(getattr(v, '__func__', v)):
-            out.append(k)
+        if k.startswith('t_') and k not in ('t_ignore', 't_error') and (
+                callable(getattr(v, '__func__', v)) or isinstance(v, str)):
+            out.append(k)     # rules given as plain strings are rules too
     return out
 
 
